@@ -160,3 +160,38 @@ Proof.
 Qed.
 
 Print Assumptions gen_headers_match_eq.
+
+(* http_signatures_match as translated (the version test, the two set tests over header_names / absent_headers, then headers_match)
+   is the model's http_sig_match; find_http_match's call of it is rendered as rec_matches, which is http_sig_match on the record's signature *)
+From PV Require Import Gen.GenLib.
+Lemma occurs_names : forall name hs, existsb (text_eqb name) (gen_pkt_header_names hs) = occurs name hs.
+Proof.
+  intros name hs. unfold gen_pkt_header_names, occurs.
+  induction hs as [|h r IH]; [reflexivity|]. cbn [map existsb]. rewrite IH. reflexivity.
+Qed.
+Lemma subset_names : forall sh hs,
+  gen_subset (map (fun header => lower (sh_name header)) (filter (fun header => negb (sh_optional header)) sh)) (gen_pkt_header_names hs)
+  = forallb (fun h => sh_optional h || occurs (lower (sh_name h)) hs) sh.
+Proof.
+  intros sh hs. unfold gen_subset. induction sh as [|h r IH]; [reflexivity|].
+  cbn [filter forallb]. destruct (sh_optional h); cbn [negb orb]; [exact IH|].
+  cbn [map forallb]. rewrite occurs_names, IH. reflexivity.
+Qed.
+Lemma meets_names : forall ab hs, gen_meets ab (gen_pkt_header_names hs) = existsb (fun a => occurs a hs) ab.
+Proof.
+  intros ab hs. unfold gen_meets. induction ab as [|a r IH]; [reflexivity|].
+  cbn [existsb]. rewrite occurs_names, IH. reflexivity.
+Qed.
+Theorem gen_http_signatures_match_eq : forall s ver hs,
+  gen_http_signatures_match s ver hs = Ok (http_sig_match s ver hs).
+Proof.
+  intros s ver hs. unfold gen_http_signatures_match, http_sig_match, gen_sig_header_names.
+  rewrite subset_names, meets_names, gen_headers_match_eq.
+  destruct (((hs_version s =? -1) || (hs_version s =? ver)) && forallb (fun h => sh_optional h || occurs (lower (sh_name h)) hs) (hs_headers s)
+            && negb (existsb (fun a => occurs a hs) (hs_absent s))); reflexivity.
+Qed.
+Theorem gen_rec_matches_eq : forall ver hs r,
+  rec_matches ver hs r = match http_of r with Some s => match gen_http_signatures_match s ver hs with Ok b => b | Err _ => false end | None => false end.
+Proof. intros ver hs r. unfold rec_matches. destruct (http_of r) as [s|]; [rewrite gen_http_signatures_match_eq|]; reflexivity. Qed.
+Print Assumptions gen_http_signatures_match_eq.
+Print Assumptions gen_rec_matches_eq.
